@@ -73,11 +73,11 @@ def rnd_build(rnd, surrogate_p=0.0):
         if ("host" in kw or "authority" in kw) and rnd.random() < 0.9:
             p = "/" + p
         kw["path"] = T(p)
-    r = rnd.random()
-    if r < 0.3:
+    # query and query_string are drawn independently: both given (an error unless one of them is empty), either, neither
+    if rnd.random() < 0.38:
         kw["query_string"] = T(text(rnd, surrogate_p=surrogate_p))
-    elif r < 0.6:
-        kw["query"] = rnd_qarg(rnd, forms=("mapping", "pairs"), surrogate_p=surrogate_p, typed=TYPED)
+    if rnd.random() < 0.38:
+        kw["query"] = rnd_qarg(rnd, forms=("mapping", "pairs", "str", "none", "multidict"), surrogate_p=surrogate_p, typed=TYPED)
     if rnd.random() < 0.5:
         kw["fragment"] = T(text(rnd, surrogate_p=surrogate_p))
     return {"op": "build", "kw": kw}
